@@ -244,9 +244,12 @@ func c20Client(x *X) {
 	}
 	c := rpc.NewClient(so.options(n, 64), "a")
 	c.DialTimeout = 700 * 1e6
-	vs.Quiesce()
-	vt.Advance(cTick)
-	vs.Quiesce()
+	atOnce := h == 0 && x.Choose(2) == 1 // the Client is closed right after it was made: its first health probe may still be on its way
+	if !atOnce {
+		vs.Quiesce()
+		vt.Advance(cTick)
+		vs.Quiesce()
+	}
 	var u *ucall
 	waiterDone := false
 	var waiterErr error
@@ -286,7 +289,11 @@ func c20Client(x *X) {
 	}
 	w.open(1)
 	vs.Quiesce()
-	what := fmt.Sprintf("client, history %d, order %d", h, order)
+	what := fmt.Sprintf("client, history %d, order %d, closed at once %v", h, order, atOnce)
+	if atOnce {
+		vt.Advance(3 * cTick)
+		vs.Quiesce()
+	}
 	if c1 != nil || c2 != nil {
 		x.Fail("C20/close-result", "%s: Client.Close returned %v then %v", what, c1, c2)
 	}
